@@ -68,7 +68,7 @@ func c08NewBox(nb uint32, place string) *c08Box {
 			panic(fmt.Sprintf("VERIF-HARNESS: no memory below 4 GiB: %v", err))
 		}
 		a := g.Addr() + 2048
-		b = &c08Box{pre: (*uint32)(unsafe.Pointer(a - 4)), l: (*Spinlock)(unsafe.Pointer(a)), post: (*uint32)(unsafe.Pointer(a + 4)), far: (*uint64)(unsafe.Pointer(a + 8)), free: g.Free}
+		b = c08BoxAt(a, g.Free)
 	case "lo32zero":
 		var a uintptr
 		for k := uintptr(1); k < 0x7000 && a == 0; k++ {
@@ -79,13 +79,21 @@ func c08NewBox(nb uint32, place string) *c08Box {
 		if a == 0 {
 			panic("VERIF-HARNESS: no free address that is a multiple of 4 GiB")
 		}
-		b = &c08Box{pre: (*uint32)(unsafe.Pointer(a - 4)), l: (*Spinlock)(unsafe.Pointer(a)), post: (*uint32)(unsafe.Pointer(a + 4)), far: (*uint64)(unsafe.Pointer(a + 8)), free: func() { vlib.UnmapFixed(a-4096, 2) }}
+		b = c08BoxAt(a, func() { vlib.UnmapFixed(a-4096, 2) })
 	default:
 		m := &c08Mem{}
 		b = &c08Box{pre: &m.pre, l: &m.l, post: &m.post, far: &m.far, free: func() {}}
 	}
 	*b.pre, *b.post, *b.far = nb, nb, uint64(nb)<<32|uint64(nb)
 	return b
+}
+
+// c08BoxAt lays a box out by hand at address a (a multiple of 8): the word before the lock, the
+// lock itself - however many bytes the Spinlock type occupies - and the neighbours after it.
+func c08BoxAt(a uintptr, free func()) *c08Box {
+	post := a + (unsafe.Sizeof(Spinlock{})+3)&^3
+	far := (post + 4 + 7) &^ 7
+	return &c08Box{pre: (*uint32)(unsafe.Pointer(a - 4)), l: (*Spinlock)(unsafe.Pointer(a)), post: (*uint32)(unsafe.Pointer(post)), far: (*uint64)(unsafe.Pointer(far)), free: free}
 }
 
 func (b *c08Box) intact(nb uint32) *vlib.Failure {
@@ -400,6 +408,64 @@ type c08Stress struct {
 	// Age: every lock has been taken and released that many times by one task before the
 	// workers start (a lock that has been in use for a while)
 	Age int `json:"age,omitempty"`
+	// Waited: the Age acquisitions were blocking acquires that found the lock taken; the holder
+	// released it while the acquiring task was yielding (what a cooperative scheduler does on
+	// one CPU), so every one of them had to wait its turn.
+	Waited bool `json:"waited,omitempty"`
+}
+
+// ageing with waiting: the lock is held, Acquire is called, and the yield function - the point at
+// which the kernel would run other tasks - releases the lock on behalf of its holder. A plain
+// function on globals: the lock's assembly calls the yield function without a closure context.
+var (
+	c08AgeLock   *Spinlock
+	c08AgeYields int
+	c08AgeStuck  chan struct{}
+	c08AgeCount  int64
+)
+
+const c08AgeMaxYields = 200000
+
+func c08AgeYield() {
+	c08AgeYields++
+	c08AgeLock.Release()
+	if c08AgeYields == c08AgeMaxYields {
+		close(c08AgeStuck)
+		select {} // this Acquire will not return; the goroutine is abandoned with its lock
+	}
+	if c08AgeYields > 1 {
+		runtime.Gosched()
+	}
+}
+
+// c08AgeWaited performs n blocking acquisitions of a held lock, each let in by a release during
+// the yield. No clock is involved: an acquisition that has yielded c08AgeMaxYields times with the
+// lock free each time is one that does not return.
+func c08AgeWaited(l *Spinlock, n int) *vlib.Failure {
+	old := yieldFn
+	defer func() { yieldFn = old }()
+	c08AgeLock, c08AgeStuck = l, make(chan struct{})
+	yieldFn = c08AgeYield
+	done := make(chan *vlib.Failure, 1)
+	go func() {
+		for i := 0; i < n; i++ {
+			if !l.TryToAcquire() {
+				done <- vlib.Failf("single task, acquisition %d of a lock nobody holds: TryToAcquire failed", 2*i)
+				return
+			}
+			c08AgeYields = 0
+			atomic.StoreInt64(&c08AgeCount, int64(i))
+			l.Acquire()
+			l.Release()
+		}
+		done <- nil
+	}()
+	select {
+	case f := <-done:
+		return f
+	case <-c08AgeStuck:
+		return vlib.Failf("a lock that has been waited for %d times: the next blocking Acquire of the held lock does not return although the holder released it (the acquiring task yielded %d times and found the lock free each time; TryToAcquire by another task: %v)", atomic.LoadInt64(&c08AgeCount), c08AgeMaxYields, l.TryToAcquire())
+	}
 }
 
 type c08Record struct{ a, b, c, d uint64 }
@@ -442,6 +508,12 @@ func c08RunStress(c c08Stress) (fail *vlib.Failure, contention int64) {
 		box := c08NewBox(c.Nb, place)
 		defer box.free()
 		doms[k] = &c08Domain{box: box, l: box.l}
+		if c.Waited {
+			if f := c08AgeWaited(box.l, c.Age); f != nil {
+				return f, 0
+			}
+			continue
+		}
 		for i := 0; i < c.Age; i++ {
 			if i%5 == 4 {
 				if !box.l.TryToAcquire() {
@@ -579,6 +651,7 @@ func TestVerifC08Stress(t *testing.T) {
 		c.Locks = rapid.SampledFrom([]int{1, 1, 2, 2, 3}).Draw(t, "locks")
 		if rapid.IntRange(0, 7).Draw(t, "aged") == 0 {
 			c.Age = rapid.SampledFrom([]int{250, 65400, 65530, 65536, 131000}).Draw(t, "age")
+			c.Waited = rapid.Bool().Draw(t, "waited")
 		}
 		for i := 0; i < n; i++ {
 			c.Progs = append(c.Progs, c08Prog{
@@ -595,6 +668,9 @@ func TestVerifC08Stress(t *testing.T) {
 		}
 		if c.Age >= 60000 {
 			labels = append(labels, "stress-lock-taken-tens-of-thousands-of-times-before")
+			if c.Waited {
+				labels = append(labels, "stress-lock-waited-for-tens-of-thousands-of-times-before")
+			}
 		}
 		if contention > 0 {
 			labels = append(labels, "stress-contended")
